@@ -187,8 +187,13 @@ class Hooks:
 class Analyzer:
     """One function, one run.  Subclass or pass hooks to specialise."""
 
-    def __init__(self, P, F, hooks=None, field_inv=None, param_init=None, partition=None, thresholds=None):
+    def __init__(self, P, F, hooks=None, field_inv=None, param_init=None, partition=None, thresholds=None,
+                 uninit_summaries=False, entry_zero=None, widen_delay=2):
         self.P, self.F = P, F
+        self.uninit_summaries = uninit_summaries
+        self.entry_zero = entry_zero or ()      # path prefixes holding zero at function entry
+        self.widen_delay = widen_delay
+        self.escalate = True
         self.hooks = hooks
         self.field_inv = field_inv or {}      # (record, field, elem:bool) -> V   assumed for memory not written here
         self.param_init = param_init or {}
@@ -461,8 +466,14 @@ class Analyzer:
     def fold_index(self, env, var):
         """index variable `var` changes: current-element keys fold into their summaries"""
         tok = f'[{var}]'
+        for zk in ('$zero', '$uninit'):
+            z = env.get(zk)
+            if z and any(tok in x for x in z):
+                env[zk] = frozenset(x for x in z if tok not in x)
         for k in [k for k in env if isinstance(k, str) and tok in k]:
             sk = k.replace(tok, '[*]')
+            if sk not in self.keyinfo and k in self.keyinfo:
+                self.keyinfo[sk] = self.keyinfo[k]
             cur = env.pop(k)
             old = env.get(sk)
             if old is None:
@@ -499,14 +510,26 @@ class Analyzer:
             val = val.copy(le=val.le - {sym}, lt=val.lt - {sym})
         if isinstance(val, V) and val.tag == 'fresh0':
             env['$zero'] = frozenset(set(env.get('$zero', ())) | {key + '->', key + '['})
+        if isinstance(val, V) and val.tag == 'fresh' and self.uninit_summaries:
+            # malloc'ed memory: nothing may be read before it is written, so an element summary below this
+            # pointer describes the *written* elements only (DESIGN 3.3/K4 "written-elements invariant")
+            env['$uninit'] = frozenset(set(env.get('$uninit', ())) | {key + '->', key + '['})
         if weak or key.endswith('[*]') or key.startswith('*'):
             old = env.get(key)
             if old is None and any(key.startswith(z) for z in env.get('$zero', ())):
                 old = V(0, 0)
             f = self.symlo(env)
-            env[key] = join(old, val, f, f) if old is not None else (val if not key.endswith('[*]') else join(self.default(env, key, e), val, f, f))
+            if old is None and key.endswith('[*]') and self.is_uninit(env, key):
+                env[key] = val
+            else:
+                env[key] = join(old, val, f, f) if old is not None else (val if not key.endswith('[*]') else join(self.default(env, key, e), val, f, f))
         else:
             env[key] = val
+
+    @staticmethod
+    def is_uninit(env, key):
+        u = env.get('$uninit')
+        return bool(u) and any(key.startswith(z) for z in u)
 
     def symbol(self, key, e=None):
         if key.startswith('v') and key[1:].isdigit():
@@ -529,6 +552,9 @@ class Analyzer:
         z = env.get('$zero')
         if z:
             env['$zero'] = frozenset(x for x in z if not x.startswith(p))
+        z = env.get('$uninit')
+        if z:
+            env['$uninit'] = frozenset(x for x in z if not x.startswith(p))
 
     # -- expression evaluation --------------------------------------------------------------------
     def ev(self, env, e):
@@ -1240,6 +1266,21 @@ class Analyzer:
             return None
         return f
 
+    def symhi(self, env, sym):
+        sv = env.get('$sym') or {}
+        v = sv.get(sym)
+        if v is not None:
+            return v.hi
+        if sym.startswith('v') and sym[1:].isdigit():
+            v = env.get(sym)
+            return v.hi if v is not None else None
+        if '.' in sym:
+            r, fl = sym.split('.', 1)
+            fi = self.field_inv.get((r, fl, False))
+            if fi is not None:
+                return fi.hi
+        return None
+
     def eop_sweep(self, env, old, new):
         """sticky end-of-packet: a test that excludes the EOP value of the most recent read clears the EOP value of all
         earlier reads on this path"""
@@ -1274,7 +1315,7 @@ class Analyzer:
         keys = set(a) | set(b)
         la, lb = self.symlo(a), self.symlo(b)
         for k in keys:
-            if k == '$zero':
+            if k in ('$zero', '$uninit'):
                 out[k] = frozenset(set(a.get(k, ())) & set(b.get(k, ())))
                 continue
             if k == '$rd':
@@ -1298,19 +1339,36 @@ class Analyzer:
             va = a.get(k)
             vb = b.get(k)
             if va is None:
-                va = self.get(a, k)
+                va = BOT if (k.endswith('[*]') and self.is_uninit(a, k)) else self.get(a, k)
             if vb is None:
-                vb = self.get(b, k)
+                vb = BOT if (k.endswith('[*]') and self.is_uninit(b, k)) else self.get(b, k)
+            if va.is_bottom() and vb.is_bottom():
+                continue
             if wide and (assigned is None or self._key_assigned(k, assigned)):
                 # per-key delay: a location is widened only once it has grown twice at this program point
                 if growth is not None:
                     grew = vb.lo < va.lo or vb.hi > va.hi
                     if grew:
                         growth[k] = growth.get(k, 0) + 1
-                    if growth.get(k, 0) <= 2:
+                    if growth.get(k, 0) <= self.widen_delay:
                         out[k] = join(va, vb, la, lb)
                         continue
-                out[k] = widen(va, vb, self.thresholds)
+                w = widen(va, vb, self.thresholds)
+                if vb.hi > va.hi and w.hi > vb.hi:
+                    # the grown value is still below a symbolic bound with a known finite upper limit: go there at once
+                    # (`for(i=0;i<N;i++)`: i jumps to hi(N)-1 instead of climbing the threshold ladder)
+                    j = join(va, vb, la, lb)
+                    cand = []
+                    for sset, off in ((j.lt, 1), (j.le, 0)):
+                        for sy in sset:
+                            h = self.symhi(a, sy)
+                            h2 = self.symhi(b, sy)
+                            if h is not None and h2 is not None and max(h, h2) != INF:
+                                cand.append(max(h, h2) - off)
+                    cand = [c for c in cand if c >= vb.hi]
+                    if cand and min(cand) < w.hi:
+                        w = w.copy(hi=min(cand))
+                out[k] = w
             else:
                 out[k] = join(va, vb, la, lb)
         return out
@@ -1324,7 +1382,7 @@ class Analyzer:
         for k in set(a) | set(b):
             if k in ('$tmp', '$rd', '$sym'):
                 continue
-            if k == '$zero':
+            if k in ('$zero', '$uninit'):
                 if not set(b.get(k, ())) <= set(a.get(k, ())):
                     return False
                 continue
@@ -1335,9 +1393,11 @@ class Analyzer:
             va = a.get(k)
             vb = b.get(k)
             if vb is None:
-                vb = self.get(b, k)
+                vb = BOT if (k.endswith('[*]') and self.is_uninit(b, k)) else self.get(b, k)
             if va is None:
-                va = self.get(a, k)
+                va = BOT if (k.endswith('[*]') and self.is_uninit(a, k)) else self.get(a, k)
+            if vb.is_bottom() and not va.is_bottom():
+                return False
             if va.is_bottom():
                 continue
             if not (vb.lo <= va.lo and va.hi <= vb.hi and vb.lt <= (va.lt) and (vb.le <= (va.le | va.lt))):
@@ -1360,6 +1420,8 @@ class Analyzer:
                 r = int_type_range(p['t'])
                 if r:
                     env[f'v{p["id"]}'] = V(*r)
+        if self.entry_zero:
+            env['$zero'] = frozenset(self.entry_zero)
         return env
 
     def loop_assigned(self, header):
@@ -1423,12 +1485,21 @@ class Analyzer:
                         continue
                     cnt = visits.get((s, pk), 0) + 1
                     visits[(s, pk)] = cnt
-                    if is_header and cnt > 2:
+                    if is_header and cnt > self.widen_delay:
                         if s not in assigned_cache:
                             assigned_cache[s] = self.loop_assigned(s)
                         asg = assigned_cache[s]
-                        new = self.join_env(old, env, wide=True, assigned=None if '$call' in asg else asg,
-                                            growth=growth.setdefault((s, pk), {}))
+                        if self.escalate and cnt > self.widen_delay + 40:
+                            # escalation: the per-key delay and the assigned-set filter are dropped; past 20 visits
+                            # thresholds are dropped too (straight to the type range)
+                            saved = self.thresholds
+                            if cnt > self.widen_delay + 60:
+                                self.thresholds = []
+                            new = self.join_env(old, env, wide=True, assigned=None, growth=None)
+                            self.thresholds = saved
+                        else:
+                            new = self.join_env(old, env, wide=True, assigned=None if '$call' in asg else asg,
+                                                growth=growth.setdefault((s, pk), {}))
                     else:
                         new = self.join_env(old, env)
                     cur[pk] = new
